@@ -48,22 +48,92 @@ def check(ck):
         ('value_in_embedded_dict', 'library.dict_utils'),
         ('get_path_list_from_dict', 'library.dict_utils'),
         ('make_path_dict', 'library.dict_utils')])
-    ck.rule('R18.6', 'each row of a query is built from that row alone (the '
+    ck.rule('R18.8', 'each row of a query is built from that row alone (the '
             'list of found values is started afresh for every time), and '
             'flattening keeps every key at every depth (only the top-level '
             "'time' vector is set aside, by the caller)")
     H.per_iteration_accumulators(
-        ck, 'R18.6', ck.fn('RAMEmitter.get_data', 'core.emitter'),
+        ck, 'R18.8', ck.fn('RAMEmitter.get_data', 'core.emitter'),
         'the saved times')
     for q in ('get_path_list_from_dict', 'value_in_embedded_dict'):
         H.no_key_skipped(
-            ck, 'R18.6', ck.fn(q, 'library.dict_utils'),
+            ck, 'R18.8', ck.fn(q, 'library.dict_utils'),
             '%s skips keys while walking the data: a variable with that '
             'name is dropped at every nesting depth, not only the '
             "top-level 'time' vector" % q)
     n = H.setdefault_before_append(
-        ck, 'R18.6', ck.fn('value_in_embedded_dict', 'library.dict_utils'))
-    ck.floor('R18.6', n, 3, 'series creations in value_in_embedded_dict')
+        ck, 'R18.8', ck.fn('value_in_embedded_dict', 'library.dict_utils'))
+    vf = ck.fn('value_in_embedded_dict', 'library.dict_utils')
+    n += sum(1 for c in A.calls_in(vf.node, 'setdefault'))
+    ck.floor('R18.8', n, 3, 'series creations in value_in_embedded_dict')
+    # whether a value carries units is decided by its type, never by the
+    # truthiness of the value or of its magnitude
+    cfgv = cfg_of(vf.node)
+    for lp in A.walk_no_nested(vf.node):
+        if not isinstance(lp, ast.For) or not isinstance(
+                lp.target, ast.Tuple) or len(lp.target.elts) != 2:
+            continue
+        val = A.unparse(lp.target.elts[1])
+        tainted = {val}
+        for nm, ds in local_defs(vf.node).items():
+            if any(d.value is not None and val in A.names_in(d.value)
+                   and not isinstance(d.value, (ast.Dict, ast.List))
+                   for d in ds):
+                tainted.add(nm)
+        for test, where in conditions(vf):
+            bad = [A.unparse(op) for op in truthy_operands(test)
+                   if (isinstance(op, ast.Name) and op.id in tainted) or (
+                       isinstance(op, ast.Attribute) and A.is_name(
+                           op.value, val))]
+            ck.require(not bad, 'R18.8', vf, test,
+                       'no truthiness test on an emitted value or its '
+                       'magnitude',
+                       'value_in_embedded_dict tests the truthiness of `%s`, '
+                       'taken from the emitted value: a quantity whose '
+                       'magnitude is 0 is filed as a plain value under '
+                       'another key and the series falls out of step with '
+                       'the time vector' % ', '.join(bad), where,
+                       extra={'positive': True})
+    r18_7(ck)
+
+
+def r18_7(ck):
+    ck.rule('R18.7', 'a queried view is the view of the queried raw data: '
+            'every get_* method of an emitter that takes a query hands it '
+            'on to the get_* method it builds on (the selection happens on '
+            'the raw data, where a variable is addressed by its path - in '
+            'the flattened forms a unit-carrying variable sits under a '
+            '(name, unit) key that no queried path equals)')
+    n = 0
+    for cname in ('Emitter', 'RAMEmitter', 'SharedRamEmitter',
+                  'DatabaseEmitter', 'NullEmitter'):
+        ci = ck.repo.cls(cname, required=False)
+        if ci is None:
+            continue
+        for mname, m in sorted(ci.methods.items()):
+            ps = A.params_of(m.node)
+            if 'query' not in ps or not mname.startswith('get_'):
+                continue
+            ck.functions.add(m.fq)
+            for c in A.calls_in(m.node):
+                nm = A.call_name(c)
+                if not nm or not nm.startswith('get_') or not A.is_name(
+                        A.call_receiver(c), 'self'):
+                    continue
+                callee = ck.repo.method(cname, nm)
+                if callee is None or 'query' not in A.params_of(callee.node):
+                    continue
+                n += 1
+                idx = A.params_of(callee.node).index('query') - 1
+                a = A.arg_of(c, idx, 'query')
+                ck.require(A.is_name(a, 'query'), 'R18.7', m, c,
+                           'the query is handed on to %s' % nm,
+                           '%s.%s builds on self.%s(...) without its query '
+                           '(%s): the selection is made later on another '
+                           'form of the data, where some queried variables '
+                           'are no longer found under their path' % (
+                               cname, mname, nm, A.unparse(c)), c)
+    ck.floor('R18.7', n, 3, 'query-forwarding calls in emitters')
     from . import c14
     ck.shared('R18.6', 'reading the emitted data back rebuilds every '
               'container element by element: the list and dict '
